@@ -47,6 +47,11 @@ class Mem:
         self.check_align = check_align
         self.reads = 0
         self.writes = 0
+        self.sp = None               # callable returning the current stack pointer (ABIs without a red zone)
+
+    def _below_sp(self, addr, what):
+        if self.sp is not None and addr < self.sp():
+            raise Violation("access-below-stack-pointer", "%s at 0x%x below the stack pointer 0x%x: the ABI has no red zone, an interrupt or signal would overwrite it" % (what, addr, self.sp()))
 
     def load(self, addr, size):
         self.reads += 1
@@ -56,6 +61,7 @@ class Mem:
         if base <= addr and addr + size <= base + 16 + self.klen:
             pass
         elif self.stack_lo <= addr and addr + size <= self.load_top:
+            self._below_sp(addr, "load")
             for i in range(size):
                 if addr + i not in self.written:
                     raise Violation("read-uninitialised-stack", "load of stack byte 0x%x that the function never wrote" % (addr + i))
@@ -74,6 +80,7 @@ class Mem:
         if base <= addr and addr + size <= base + 16:
             pass
         elif self.stack_lo <= addr and addr + size <= self.store_top:
+            self._below_sp(addr, "store")
             for i in range(size):
                 self.written.add(addr + i)
         elif base + 16 <= addr < base + 16 + self.klen or base <= addr < base + 16:
@@ -434,6 +441,7 @@ def decode_arm(prog, idx, mn, ops, ln):
 def call_arm(prog, state_bytes, keylen, rounds, thumb, rng):
     mem = Mem(state_bytes, keylen)
     c = ArmCpu(mem, thumb)
+    mem.sp = lambda: c.r[13]
     for i in range(16):
         c.r[i] = rng.getrandbits(32)
     c.r[0] = STATE_BASE
@@ -578,6 +586,7 @@ def call_riscv(prog, state_bytes, keylen, rounds, rng):
     rve = prog.kw.get("rve", False)
     mem = Mem(state_bytes, keylen)
     c = RvCpu(mem, xlen)
+    mem.sp = lambda: c.x[2]
     MASK = M64 if xlen == 64 else M32
     for i in range(1, 32):
         c.x[i] = rng.getrandbits(xlen)
@@ -916,6 +925,7 @@ def call_xtensa(prog, state_bytes, keylen, rounds, rng):
     windowed = prog.kw.get("windowed", False)
     mem = Mem(state_bytes, keylen)
     c = XtCpu(mem)
+    mem.sp = lambda: c.a[1]
     c.windowed = windowed
     for i in range(16):
         c.a[i] = rng.getrandbits(32)
